@@ -172,11 +172,11 @@ pub enum Scenario {
     MissingMandatory(usize),
     Invalid(usize),
     /// the value never exists as text: free-text field `.0` carries in-memory variant `.1` of its value (0 blanks in
-    /// front, 1 blanks behind, 2 starts with a line break and has two lines, 3 the plain value); source paragraph
+    /// front, 1 blanks behind, 2 starts with a line break and has two lines, 3 the plain value, 4 every other letter in upper case); source paragraph
     /// collected from pairs on either back-end, converted on either back-end
     Mem(usize, usize),
 }
-pub const N_MEM: usize = 4;
+pub const N_MEM: usize = 5;
 
 #[derive(Clone, Serialize, Deserialize, PartialEq, Debug)]
 pub struct C16Case {
@@ -438,6 +438,20 @@ fn check_mem(sp: &ParaSpec, v: &[usize], fi: usize, variant: usize) -> Vec<Viol>
                     0 => format!("  {}", val),
                     1 => format!("{} \t", val),
                     2 => format!("\n{}\nsecond", val),
+                    4 => {
+                        // every other letter in upper case (a codec that folds case changes the value)
+                        let mut up = false;
+                        val.chars()
+                            .map(|c| {
+                                if c.is_ascii_alphabetic() {
+                                    up = !up;
+                                    if up { c.to_ascii_uppercase() } else { c.to_ascii_lowercase() }
+                                } else {
+                                    c
+                                }
+                            })
+                            .collect()
+                    }
                     _ => val.to_string(),
                 }
             } else {
@@ -472,7 +486,7 @@ impl Prop for C16 {
         "exploration"
     }
     fn rule(&self, _t: Tier) -> String {
-        "programs: 16 single-field structs (every combination of mandatory/optional x default/renamed key x default/custom serialiser x default/custom deserialiser), 3 that spell the configuration as several #[deb822(...)] attributes on one field, one struct with all 16 shapes, and every deriving struct shipped in the workspace; values: per struct every presence/value vector within k deviations (k = 2, thorough 3; full product for the single-field structs) of the all-mandatory and the all-present baselines; scenarios per vector: round trip on both back-ends; for k <= 1 also update_paragraph onto 7 prior contents x 2 back-ends, deletion of each mandatory field, corruption of each field that has an invalid value, and for each free-text field 4 values that never exist as text (blanks in front / behind, a leading line break) collected into a paragraph on either back-end and converted on either back-end; non-trivial = all".into()
+        "programs: 16 single-field structs (every combination of mandatory/optional x default/renamed key x default/custom serialiser x default/custom deserialiser), 3 that spell the configuration as several #[deb822(...)] attributes on one field, one struct with all 16 shapes, and every deriving struct shipped in the workspace; values: per struct every presence/value vector within k deviations (k = 2, thorough 3; full product for the single-field structs) of the all-mandatory and the all-present baselines; scenarios per vector: round trip on both back-ends; for k <= 1 also update_paragraph onto 7 prior contents x 2 back-ends, deletion of each mandatory field, corruption of each field that has an invalid value, and for each free-text field 5 values (blanks in front / behind, a leading line break - which never exist as text -, the plain value, alternating letter case) collected into a paragraph on either back-end and converted on either back-end; non-trivial = all".into()
     }
     fn bounds(&self, t: Tier) -> Value {
         json!({"structs": all_specs().iter().map(|s| json!({"id": s.id, "fields": s.fields.len()})).collect::<Vec<_>>(), "k": t.pick(2, 3)})
